@@ -180,6 +180,9 @@ def build_inputs(tier):
     for _ in range(500 * N):
         s, ctx, body = xonshgen.gen_with_macro(r)
         cases.append(("with", (s, ctx, body, r.choice(AFTER), r.choice(BEFORE))))
+        if r.random() < 0.12 and s.endswith("\n") and body.endswith("\n"):
+            # the macro ends the input and the input has no final newline
+            cases.append(("with", (s[:-1], ctx, body[:-1], "", r.choice(BEFORE))))
     for _ in range(400 * N):
         x, cmd, rest, m = xonshgen.gen_proc_macro(r)
         pre, suf = r.choice([("", "\n"), ("x = ", "\n"), ("print(", ")\ny = 2\n"), ("", " and q\n"), ("", "\ny = f(1, 2)\n"), ("x = ", " + f(1, 2)\n"),
